@@ -509,6 +509,11 @@ def r19_try_into(toks, log):
 R5B = {("Aes128Gcm", "AeadCore", "NonceSize"): 12, ("Aes128Gcm", "AeadCore", "TagSize"): 16,
        ("Aes256Gcm", "AeadCore", "NonceSize"): 12, ("Aes256Gcm", "AeadCore", "TagSize"): 16,
        ("ChaCha20Poly1305", "AeadCore", "NonceSize"): 12, ("ChaCha20Poly1305", "AeadCore", "TagSize"): 16,
+       ("Aes128Gcm", "KeySizeUser", "KeySize"): 16, ("Aes256Gcm", "KeySizeUser", "KeySize"): 32, ("ChaCha20Poly1305", "KeySizeUser", "KeySize"): 32,
+       ("ChaCha8Poly1305", "KeySizeUser", "KeySize"): 32, ("XChaCha8Poly1305", "KeySizeUser", "KeySize"): 32, ("XChaCha20Poly1305", "KeySizeUser", "KeySize"): 32,
+       ("ChaCha8Poly1305", "AeadCore", "NonceSize"): 12, ("ChaCha8Poly1305", "AeadCore", "TagSize"): 16,
+       ("XChaCha8Poly1305", "AeadCore", "NonceSize"): 24, ("XChaCha20Poly1305", "AeadCore", "NonceSize"): 24,
+       ("XChaCha8Poly1305", "AeadCore", "TagSize"): 16, ("XChaCha20Poly1305", "AeadCore", "TagSize"): 16,
        ("Sha224", "OutputSizeUser", "OutputSize"): 28, ("Sha256", "OutputSizeUser", "OutputSize"): 32, ("Md5", "OutputSizeUser", "OutputSize"): 16}
 def r5b_assoc_consts(toks, log):
     out = []
